@@ -8,12 +8,18 @@ package store
 //     through the node's own fields), strongReadTerm and readiness: error class, whether the
 //     request went through the log, reported level, strongReadTerm afterwards, whether
 //     leadership was verified.
+//  C. Role histories: one node of that cluster (the "rover") changes its role while it keeps
+//     running - removed and re-joined with the other suffrage, promoted / demoted in place through
+//     Join - and the same calls, judged by the same oracle against the node's CURRENT role, are
+//     made on it before and after every change (so whatever a node remembers from its earlier
+//     role shows).
 
 import (
 	"context"
 	"encoding/json"
 	"fmt"
 	"math"
+	"strings"
 	"testing"
 	"time"
 
@@ -117,12 +123,15 @@ func c16Grid() []c16StaleIn {
 
 type c16DispIn struct {
 	Kind   string `json:"kind"`   // "dispatch"
-	Role   string `json:"role"`   // leader | follower | nonvoter
+	Role   string `json:"role"`   // leader | follower | nonvoter | rover
 	Entry  string `json:"entry"`  // query | request-ro | request-rw | request-mixed
 	Level  string `json:"level"`  // none | weak | strong | auto | linearizable
 	Stale  string `json:"stale"`  // unset | loose | tight | strict-behind-old | strict-behind-recent | strict-caught-up
 	SrtCur bool   `json:"srt_is_current_term"`
 	Ready  bool   `json:"ready"`
+	// role=rover only: the role changes the rover went through before this call, each preceded by
+	// the whole battery of calls (a replay re-runs the history)
+	Hist []string `json:"role_history,omitempty"`
 }
 
 var c16Levels = map[string]proto.ConsistencyLevel{
@@ -165,6 +174,8 @@ func (e *c16Env) node(role string) *vcNode {
 	switch role {
 	case "leader":
 		return e.ld
+	case "rover":
+		return e.rover()
 	case "nonvoter":
 		for _, n := range e.c.nodes {
 			if !n.voter {
@@ -339,8 +350,13 @@ func (e *c16Env) run(w *vWriter, in c16DispIn) {
 	if in.Level == "auto" {
 		// reference for the oracle: the same call with the documented explicit level
 		doc := "weak"
-		if in.Role == "nonvoter" {
-			doc = "none"
+		if ld := e.c.leader(10 * time.Second); ld != nil {
+			e.ld = ld
+		}
+		if n := e.node(in.Role); n != nil {
+			if v, err := n.s.IsVoter(); err == nil && !v {
+				doc = "none"
+			}
 		}
 		r, why := e.call(in, doc)
 		if r == nil {
@@ -365,7 +381,10 @@ func (e *c16Env) run(w *vWriter, in c16DispIn) {
 		entry, c16LevelCoq(in.Level), coqZ(sn.fresh), coqBool(sn.strict), coqN(uint64(sn.nRW)), coqN(uint64(sn.nRO)))
 	seenCoq := fmt.Sprintf("{| s_err := %s; s_via_log := %s; s_level := %s; s_srt_after := %s; s_verified := %s |}",
 		sn.errClass, coqBool(sn.viaLog), coqOpt(sn.level != "", sn.level), coqN(sn.srtAfter), coqBool(sn.verified))
-	c := VCase{Input: in, Key: key, Tags: tags, Nontrivial: in.Role != "leader",
+	if in.Role == "rover" {
+		tags = append(tags, fmt.Sprintf("rover-voter=%v", sn.voter), fmt.Sprintf("rover-changes=%d", len(in.Hist)))
+	}
+	c := VCase{Input: in, Key: key, Tags: tags, Nontrivial: !sn.leader,
 		Coq: fmt.Sprintf("CDispatch %s %s %s", node, req, seenCoq)}
 
 	// ---- the property, stated independently of the model
@@ -424,6 +443,90 @@ func c16DispatchInputs() []c16DispIn {
 	return out
 }
 
+// ---------------------------------------------------------------- C. role histories
+
+var c16RoleChanges = []string{"rejoin-voter", "rejoin-nonvoter", "promote", "demote"}
+
+// the rover: the node that joined as the non-voter (it has served every kind of read by the time
+// its role first changes)
+func (e *c16Env) rover() *vcNode {
+	return e.c.nodes[len(e.c.nodes)-1]
+}
+
+// change applies one role change to the rover, through the leader, while the rover keeps running.
+func (e *c16Env) change(tr string) error {
+	x := e.rover()
+	var ld *vcNode
+	for i := 0; i < 5; i++ {
+		ld = e.c.leader(15 * time.Second)
+		if ld == nil {
+			return fmt.Errorf("no leader")
+		}
+		if ld != x {
+			break
+		}
+		// the change is made by another node: move leadership away from the rover first
+		ld.s.Stepdown(true, "")
+		time.Sleep(100 * time.Millisecond)
+	}
+	if ld == x {
+		return fmt.Errorf("the rover stays leader")
+	}
+	e.ld = ld
+	want := tr == "rejoin-voter" || tr == "promote"
+	if strings.HasPrefix(tr, "rejoin") {
+		if err := ld.s.Remove(context.Background(), removeNodeRequest(x.s.ID())); err != nil {
+			return err
+		}
+	}
+	if err := ld.s.Join(joinRequest(x.s.ID(), x.s.Addr(), want)); err != nil {
+		return err
+	}
+	// the rover learns of it through replication
+	for i := 0; i < 2000; i++ {
+		if v, err := x.s.IsVoter(); err == nil && v == want {
+			if a, _ := x.s.LeaderAddr(); a != "" {
+				break
+			}
+		}
+		time.Sleep(5 * time.Millisecond)
+	}
+	if v, err := x.s.IsVoter(); err != nil || v != want {
+		return fmt.Errorf("the rover did not take the role asked for")
+	}
+	x.voter = want
+	return nil
+}
+
+// battery: the calls made on the rover in each of its roles
+func (e *c16Env) battery(w *vWriter, hist []string) {
+	for _, entry := range []string{"query", "request-ro", "request-mixed"} {
+		for _, level := range []string{"auto", "weak", "none", "linearizable"} {
+			for _, st := range []string{"unset", "tight"} {
+				if level == "linearizable" && st == "tight" {
+					continue
+				}
+				e.run(w, c16DispIn{Kind: "dispatch", Role: "rover", Entry: entry, Level: level, Stale: st, SrtCur: true, Ready: true,
+					Hist: append([]string{}, hist...)})
+			}
+		}
+	}
+}
+
+func (e *c16Env) roleHistory(w *vWriter, changes []string) {
+	var hist []string
+	e.battery(w, hist)
+	for _, tr := range changes {
+		if err := e.change(tr); err != nil {
+			w.Emit(VCase{Input: c16DispIn{Kind: "dispatch", Role: "rover", Hist: append(hist, tr)}, Key: "rover:" + strings.Join(append(hist, tr), ","),
+				Inconcl: "role change " + tr + " failed: " + err.Error(), Tags: []string{"dispatch", "role=rover"}})
+			return
+		}
+		hist = append(hist, tr)
+		e.battery(w, hist)
+	}
+}
+
 func c16NewEnv(t *testing.T) *c16Env {
 	for attempt := 0; attempt < 3; attempt++ {
 		c, err := vcNew(t, 3, 1)
@@ -469,6 +572,11 @@ func TestVerif_C16(t *testing.T) {
 			return
 		}
 		defer env.c.close()
+		if in.Role == "rover" {
+			// what a node remembers from its earlier roles matters: re-run the whole history
+			env.roleHistory(w, in.Hist)
+			return
+		}
 		env.run(w, in)
 		return
 	}
@@ -491,4 +599,19 @@ func TestVerif_C16(t *testing.T) {
 			env.run(w, in)
 		}
 	}
+	// role histories on the rover (after the fixed-role part, which needs it as the non-voter).
+	// It starts as a non-voter; the changes of one history continue from where the previous ended.
+	hists := [][]string{{"rejoin-voter", "demote", "promote", "rejoin-nonvoter"}}
+	for len(hists) < vN(2, 12) {
+		var h []string
+		for i, l := 0, 3+rng.Intn(3); i < l; i++ {
+			h = append(h, c16RoleChanges[rng.Intn(len(c16RoleChanges))])
+		}
+		hists = append(hists, h)
+	}
+	var all []string
+	for _, h := range hists {
+		all = append(all, h...)
+	}
+	env.roleHistory(w, all)
 }
